@@ -73,7 +73,8 @@ func checkCli(c CliCase) error {
 			}
 			switch c.Cmd {
 			case "outgroup-args", "outgroup-file":
-				err = t.RerootOutGroup(c.Remove, c.Strict, c.Names...)
+				// a fresh list per tree: the oracle must not inherit what an earlier call did to its arguments
+				err = t.RerootOutGroup(c.Remove, c.Strict, append([]string(nil), c.Names...)...)
 			case "midpoint":
 				err = t.RerootMidPoint()
 			case "unroot":
